@@ -118,7 +118,10 @@ def build_driver(work, defs, tags="verif", race=False):
     shutil.copytree(os.path.join(HARNESS, "driver"), os.path.join(d, "driver"))
     for f in ("go.mod", "go.sum"):
         shutil.copy(os.path.join(HARNESS, f), d)
-    shutil.copy(os.path.join(REPO, "go.sum"), os.path.join(d, "go.sum"))
+    # go.sum: the repository's own sums plus the harness's (apache/thrift, from the module cache)
+    with open(os.path.join(d, "go.sum"), "w") as fh:
+        fh.write(open(os.path.join(REPO, "go.sum")).read())
+        fh.write(open(os.path.join(HARNESS, "go.sum")).read())
     with open(os.path.join(d, "driver", "types_gen.go"), "w") as fh:
         fh.write(typegen.gen_source(defs))
     defs_path = os.path.join(d, "defs.json")
